@@ -508,6 +508,12 @@ func hintProductions() map[int][]int {
 
 // withTrivia re-renders a sentence with whitespace / comments before every token (G-trivia).
 func withTrivia(rng *rand.Rand, src []byte, fam int) [][]byte {
+	return withTriviaKinds(rng, src, fam, -1)
+}
+
+// withTriviaKinds: mode -1 mixes everything except lone CR; 0 blanks/tabs, 1 LF, 2 CRLF, 3 block
+// comments, 4 line comments, 5 doc comments, 6 lone CR, 7 mix incl. lone CR
+func withTriviaKinds(rng *rand.Rand, src []byte, fam int, mode int) [][]byte {
 	maj, min := uint64(7), uint64(4)
 	if fam == 5 {
 		maj, min = 5, 6
@@ -517,12 +523,34 @@ func withTrivia(rng *rand.Rand, src []byte, fam int) [][]byte {
 		return nil
 	}
 	trivia := []string{" ", "  ", "\n", "\r\n", "\t", " /* c */ ", "\n// l\n", " # h\n", "/** d */"}
+	switch mode {
+	case 0:
+		trivia = []string{" ", "\t", "   ", " \t "}
+	case 1:
+		trivia = []string{"\n", "\n\n", " \n "}
+	case 2:
+		trivia = []string{"\r\n", " \r\n\t"}
+	case 3:
+		trivia = []string{"/* c */", " /* a\nb */ ", "/**/"}
+	case 4:
+		trivia = []string{"// l\n", " # h\n", "//\r\n", "// ?\n"}
+	case 5:
+		trivia = []string{"/** d */", " /** d\n * e\n */ "}
+	case 6:
+		trivia = []string{"\r", " \r "}
+	case 7:
+		trivia = append(trivia, "\r", "// c\r")
+	}
 	var out [][]byte
-	for v := 0; v < 2; v++ {
+	nv := 2
+	if mode >= 0 {
+		nv = 1
+	}
+	for v := 0; v < nv; v++ {
 		var b []byte
 		prev := 0
 		inStr := false
-		for _, t := range lt {
+		for i, t := range lt {
 			b = append(b, src[prev:t.S]...)
 			if t.ID == token.ID('"') || t.ID == token.ID('`') {
 				inStr = !inStr
@@ -532,7 +560,8 @@ func withTrivia(rng *rand.Rand, src []byte, fam int) [][]byte {
 					continue
 				}
 			}
-			if !inStr && t.ID != token.T_END_HEREDOC && t.ID != token.T_ENCAPSED_AND_WHITESPACE && t.S > 6 {
+			afterEnd := i > 0 && lt[i-1].ID == token.T_END_HEREDOC && fam == 5 // before 7.3 only `;` or a newline may follow the closing label
+			if !inStr && t.ID != token.T_END_HEREDOC && t.ID != token.T_ENCAPSED_AND_WHITESPACE && t.ID != token.T_INLINE_HTML && !afterEnd && t.S > 6 && !strings.HasPrefix(t.Value, "<?") && !(i > 0 && lt[i-1].ID == token.T_INLINE_HTML) {
 				b = append(b, trivia[rng.Intn(len(trivia))]...)
 			}
 			if t.ID == token.T_START_HEREDOC {
